@@ -144,6 +144,7 @@ class Shape(Exception):
     pass
 
 NAT, CHAR, STR, BOOL = 'Nat', 'Char', 'String', 'Bool'
+INT = 'Int'                         # a Python int that may be negative (method translations: `turns`)
 TEXT = 'Text'                       # a Python `str` kept as the list of its characters (Lean `List Char`)
 def L(t): return ('List', t)
 def O(t): return ('Option', t)
@@ -231,6 +232,8 @@ def lean_name(spec):
 
 
 class FuncTx:
+    M = 'Py.M'                                                  # the monad of the emitted definitions
+
     def __init__(self, spec, fn, parent=None, specs=None):
         self.spec, self.fn = spec, fn
         self.name = spec.get('inst', spec['name'])             # a typed instance has its own Lean names
@@ -359,6 +362,8 @@ class FuncTx:
             return '(!(%s).isEmpty)' % c
         if isinstance(t, tuple) and t[0] == 'Option' and isinstance(t[1], tuple) and t[1][0] == 'Prod':
             return '(%s).isSome' % c                 # None is false, a 2-tuple is true
+        if isinstance(t, tuple) and t[0] == 'Option' and isinstance(t[1], tuple) and t[1][0] == 'List':
+            return '(Py.truthyOL %s)' % c            # None and the empty list are false
         raise Shape('%s: truth value of a %s' % (self.name, ty(t)))
 
     def need(self, code, t, want):
@@ -375,6 +380,8 @@ class FuncTx:
             return '[%s]' % code
         if want == TEXT and t == STR:                           # an opaque str as the list of its characters
             return '(%s).toList' % code
+        if want == INT and t == NAT:                            # a non-negative int where any int may stand
+            return '(Int.ofNat %s)' % code
         raise Shape('%s: a %s where a %s is needed: %s' % (self.name, ty(t), ty(want), code))
 
     def ex(self, node, expect=None):
@@ -403,6 +410,10 @@ class FuncTx:
                 b, tb = self.ex(node.right, ta)
                 if ta == NAT and tb == NAT:
                     return '(%s + %s)' % (a, b), NAT
+                if INT in (ta, tb) and ta in (NAT, INT) and tb in (NAT, INT):
+                    return '(%s + %s)' % (self.need(a, ta, INT), self.need(b, tb, INT)), INT
+                if ta in (CHAR, STR, TEXT) and tb in (CHAR, STR, TEXT):       # str + str: the characters of both
+                    return '(%s ++ %s)' % (self.need(a, ta, TEXT), self.need(b, tb, TEXT)), TEXT
                 if isinstance(ta, tuple) and ta[0] == 'List' and tb == ta:
                     return '(%s ++ %s)' % (a, b), ta
                 raise Shape('%s: + on %s and %s' % (self.name, ty(ta), ty(tb)))
@@ -413,12 +424,16 @@ class FuncTx:
                     a, ta = self.need(a, ta, NAT), NAT
                 if ta == NAT and tb == NAT:
                     return '(← Py.sub %s %s)' % (a, b), NAT        # checked: translator fault instead of a negative int
+                if INT in (ta, tb) and ta in (NAT, INT) and tb in (NAT, INT):
+                    return '(%s - %s)' % (self.need(a, ta, INT), self.need(b, tb, INT)), INT
                 raise Shape('%s: - on %s and %s' % (self.name, ty(ta), ty(tb)))
             if isinstance(node.op, ast.Mod):
                 a, ta = self.ex(node.left, NAT)
                 b, tb = self.ex(node.right, NAT)
                 if ta == NAT and tb == NAT:
                     return '(← Py.mod %s %s)' % (a, b), NAT        # ZeroDivisionError
+                if INT in (ta, tb) and ta in (NAT, INT) and tb in (NAT, INT):     # floored modulo, ZeroDivisionError
+                    return '(← Py.imod %s %s)' % (self.need(a, ta, INT), self.need(b, tb, INT)), INT
                 raise Shape('%s: %% on %s and %s' % (self.name, ty(ta), ty(tb)))
             if isinstance(node.op, ast.BitAnd):
                 a, ta = self.ex(node.left, NAT)
@@ -471,6 +486,11 @@ class FuncTx:
             return self.mapped(g.target.id, node.elt, g.iter, expect)
         if isinstance(node, ast.UnaryOp) and isinstance(node.op, ast.Not):
             return '(!' + self.truthy(node.operand) + ')', BOOL
+        if isinstance(node, ast.UnaryOp) and isinstance(node.op, ast.USub):
+            a, ta = self.ex(node.operand)
+            if ta not in (NAT, INT):
+                raise Shape('%s: unary minus on a %s' % (self.name, ty(ta)))
+            return '(-%s)' % self.need(a, ta, INT), INT
         if isinstance(node, ast.BoolOp):
             return self.truthy(node), BOOL
         if isinstance(node, ast.Compare) and len(node.ops) == 1:
@@ -493,6 +513,8 @@ class FuncTx:
                     a, ta = self.ex(l, tb[1])
                     c = '(Py.dictHas %s %s)' % (b, self.need(a, ta, tb[1]))
                     return (c if isinstance(op, ast.In) else '(!%s)' % c), BOOL
+                if isinstance(tb, tuple) and tb[0] == 'Option' and isinstance(tb[1], tuple) and tb[1][0] == 'List':
+                    b, tb = '(← Py.unwrap %s)' % b, tb[1]          # `x in None` is a TypeError
                 if not (isinstance(tb, tuple) and tb[0] == 'List'):
                     raise Shape('%s: `in` on a %s' % (self.name, ty(tb)))
                 a, ta = self.ex(l, tb[1])
@@ -510,6 +532,8 @@ class FuncTx:
                     b, tb = '(some %s)' % b, ta
                 elif tb == O(NAT) and ta == NAT:
                     a, ta = '(some %s)' % a, tb
+                elif (ta, tb) in ((NAT, INT), (INT, NAT)):          # ints of either sign
+                    a, b, ta, tb = self.need(a, ta, INT), self.need(b, tb, INT), INT, INT
                 if ta != tb:
                     raise Shape('%s: == on %s and %s' % (self.name, ty(ta), ty(tb)))
                 return '(%s %s %s)' % (a, '==' if isinstance(op, ast.Eq) else '!=', b), BOOL
@@ -520,6 +544,8 @@ class FuncTx:
                 a, b, ta, tb = self.need(a, ta, NAT), self.need(b, tb, NAT), NAT, NAT
             if ta == NAT and tb == NAT:
                 return '(decide (%s %s %s))' % (a, sym, b), BOOL
+            if INT in (ta, tb) and ta in (NAT, INT) and tb in (NAT, INT):
+                return '(decide (%s %s %s))' % (self.need(a, ta, INT), sym, self.need(b, tb, INT)), BOOL
             # tuples of two ints (a None-able side raises TypeError)
             if sym == '<':
                 a2, b2 = self.need(a, ta, LOC), self.need(b, tb, LOC)
@@ -529,7 +555,7 @@ class FuncTx:
             base, tb = self.ex(node.value)
             sl = node.slice
             if isinstance(sl, ast.Slice):
-                if sl.step is not None or not (isinstance(tb, tuple) and tb[0] == 'List'):
+                if sl.step is not None or not (tb == TEXT or (isinstance(tb, tuple) and tb[0] == 'List')):
                     raise Shape('%s: slice shape' % self.name)
                 c = base
                 if sl.lower is None and isinstance(sl.upper, ast.UnaryOp) and isinstance(sl.upper.op, ast.USub) \
@@ -547,8 +573,8 @@ class FuncTx:
             if isinstance(tb, tuple) and tb[0] == 'Dict' and not isinstance(sl, ast.Slice):
                 k, tk = self.ex(sl, tb[1])
                 return '(← Py.dictGet %s %s)' % (base, self.need(k, tk, tb[1])), tb[2]
-            if isinstance(tb, tuple) and tb[0] == 'Option' and isinstance(tb[1], tuple) and tb[1][0] == 'Prod':
-                base, tb = '(← Py.unwrap %s)' % base, tb[1]
+            if isinstance(tb, tuple) and tb[0] == 'Option' and isinstance(tb[1], tuple) and tb[1][0] in ('Prod', 'List'):
+                base, tb = '(← Py.unwrap %s)' % base, tb[1]          # `None[i]` is a TypeError
             if isinstance(tb, tuple) and tb[0] == 'Prod':
                 if isinstance(sl, ast.Constant) and sl.value in (0, 1):
                     return '%s.%d' % (base, sl.value + 1), tb[1 + sl.value]
@@ -576,10 +602,17 @@ class FuncTx:
                     if len(la.args) != 1 or la.vararg or la.kwarg or la.kwonlyargs or la.defaults or la.posonlyargs:
                         raise Shape('%s: lambda shape' % self.name)
                     return self.mapped(la.args[0].arg, m.args[0].body, m.args[1], expect)
+                if f.id == 'str' and len(node.args) == 1 and self.spec.get('str_is_builtin'):
+                    a, ta = self.ex(node.args[0])
+                    if ta in (CHAR, STR, TEXT):                      # str(s) of a str is s
+                        return a, ta
+                    raise Shape('%s: str() of a %s' % (self.name, ty(ta)))
                 if f.id == 'len' and len(node.args) == 1:
                     a, ta = self.ex(node.args[0])
                     if ta in (TEXT, STR):                            # number of characters of a str
                         return '(%s).length' % a, NAT
+                    if isinstance(ta, tuple) and ta[0] == 'Option' and isinstance(ta[1], tuple) and ta[1][0] == 'List':
+                        return '(← Py.unwrap %s).length' % a, NAT   # len(None) is a TypeError
                     if not (isinstance(ta, tuple) and ta[0] == 'List'): raise Shape('len of ' + ty(ta))
                     return '(%s).length' % a, NAT
                 if f.id == 'list' and len(node.args) == 1:
@@ -590,6 +623,8 @@ class FuncTx:
                     return a, ta                                   # a copy; values are immutable here
                 if f.id == 'enumerate' and len(node.args) == 1:
                     a, ta = self.ex(node.args[0])
+                    if isinstance(ta, tuple) and ta[0] == 'Option' and isinstance(ta[1], tuple) and ta[1][0] == 'List':
+                        a, ta = '(← Py.unwrap %s)' % a, ta[1]            # enumerate(None) is a TypeError
                     return '(Py.enumerate %s)' % a, L(P(NAT, ta[1]))
                 if f.id == 'range' and len(node.args) in (1, 2):
                     args = [self.ex(x) for x in node.args]
@@ -873,9 +908,10 @@ class FuncTx:
         code, t = '(← %s %s)' % (head, ' '.join(args)), cspec['ret']
         if 'ret_pick' in cspec:                    # the callee's translation returns all its result shapes together
             q, table = cspec['ret_pick']
-            if not (isinstance(given[q], ast.Constant) and given[q].value in table):
+            g = given[q] if q in given else self.default_value(cspec, q, dict(params)[q])[1]
+            if not (isinstance(g, ast.Constant) and g.value in table):
                 raise Shape('%s: %s of %s must be a literal' % (self.name, q, f))
-            proj, t = table[given[q].value]
+            proj, t = table[g.value]
             code = '((fun r => %s) %s)' % (proj, code)
         return code, t
 
@@ -1076,6 +1112,10 @@ class FuncTx:
                 if te != NAT: raise Shape('+= of a %s to a Nat' % ty(te))
                 out.append(ind + self.set_local(n, '(%s + %s)' % (c, e)))
                 return
+            if t == TEXT:                                                   # str += str
+                e, te = self.ex(st.value, TEXT)
+                out.append(ind + self.set_local(n, '(%s ++ %s)' % (c, self.need(e, te, TEXT))))
+                return
             if t == L(CHAR):                                                # str += one character
                 e, te = self.ex(st.value, CHAR)
                 if te != CHAR: raise Shape('%s: += of a %s to a str' % (self.name, ty(te)))
@@ -1175,7 +1215,7 @@ class FuncTx:
         out.append(ind + 'let r := (do')
         out.append(ind + '  let mut v := v')
         self.stmts(st.body, out, ind + '  ', False)
-        out.append(ind + '  return v : Py.M _)')
+        out.append(ind + '  return v : %s _)' % self.M)
         out.append(ind + 'match r with')
         out.append(ind + '| .ok v\' => v := v\'')
         out.append(ind + '| .error (.fault "IndexError") =>')
@@ -1183,9 +1223,9 @@ class FuncTx:
         out.append(ind + '| .error e => throw e')
 
     def loop(self, st, out, ind):
-        if st.orelse:
-            raise Shape('%s: for … else' % self.name)
         has_break = bool(own_breaks(st))
+        if st.orelse and not has_break:
+            raise Shape('%s: for … else without break' % self.name)
         has_ret = self.ret_flag and any(isinstance(n, ast.Return) for n in ast.walk(st))
         it, tit = self.iter_ex(st.iter)
         if not (isinstance(tit, tuple) and tit[0] == 'List'):
@@ -1235,9 +1275,9 @@ class FuncTx:
         sig += ''.join(' (%s : %s)' % (n, ty(t)) for n, t in outer)
         rec_arg = ''
         if self.recursive:
-            sig = '(recur : %s → Py.M (%s)) ' % (' → '.join(ty(t, False) for _, t in self.spec['params']), ty(self.spec['ret'])) + sig
+            sig = '(recur : %s → %s (%s)) ' % (' → '.join(ty(t, False) for _, t in self.spec['params']), self.M, ty(self.spec['ret'])) + sig
             rec_arg = self.recur_code() + ' '
-        body = ['def %s.loop%d %s (v : %s.Vars) (%s : %s) : Py.M %s.Vars := do' % (self.name, k, sig, self.name, arg, ty(et), self.name),
+        body = ['def %s.loop%d %s (v : %s.Vars) (%s : %s) : %s %s.Vars := do' % (self.name, k, sig, self.name, arg, ty(et), self.M, self.name),
                 '  let mut v := v']
         if has_ret:
             body.append('  if v.returned then return v      -- after return')
@@ -1256,6 +1296,11 @@ class FuncTx:
         out.append(ind + 'v ← List.foldlM (%s) v %s      -- for %s in %s' % (call, it, ast.unparse(st.target), ast.unparse(st.iter)))
         if has_ret:
             out.append(ind + ('if v.returned then return v' if self.loop_stack else 'if v.returned then return v.yielded'))
+        if st.orelse:                                   # for … else: the else block runs iff the loop was not left by break
+            if has_ret:
+                raise Shape('%s: for … else in a loop with return' % self.name)
+            out.append(ind + 'if !v.brk%d then      -- else: (of the for loop)' % k)
+            self.block(st.orelse, out, ind + '  ', bool(self.loop_stack))
         # loop variables are not visible after the loop
         after = set(self.loopvars) - set(saved)
         self.loopvars = saved
@@ -1322,12 +1367,12 @@ class FuncTx:
         init = ', '.join('%s := %s' % (ident(p), ident(p)) for p in self.rebound)
         if self.parent is not None:
             text.append('/-- the nested function `%s` (%s), statement by statement -/' % (self.name, self.spec['path']))
-            text.append('def %s %s : Py.M (%s) := do' % (self.name, sig, ty(self.spec['ret'])))
+            text.append('def %s %s : %s (%s) := do' % (self.name, sig, self.M, ty(self.spec['ret'])))
         elif self.recursive:
             text.append('/-- `%s` (%s), statement by statement; `list(…)` of the generator, recursion depth bounded by `fuel` -/'
                         % (self.name, self.spec['path']) if self.generator is not None else
                         '/-- `%s` (%s), statement by statement; recursion depth bounded by `fuel` -/' % (self.name, self.spec['path']))
-            text.append('def py_%s (fuel : Nat) %s : Py.M (%s) :=' % (lean_name(self.spec), sig, ty(self.spec['ret'])))
+            text.append('def py_%s (fuel : Nat) %s : %s (%s) :=' % (lean_name(self.spec), sig, self.M, ty(self.spec['ret'])))
             text.append('  match fuel with')
             text.append('  | 0 => throw (Err.fault "RecursionError")')
             text.append('  | fuel + 1 => do')
@@ -1342,11 +1387,11 @@ class FuncTx:
             if self.spec.get('fuel'):
                 note.append('`fuel` bounds the recursion depth of the functions it calls')
             text.append('/-- `%s` (%s), statement by statement; %s -/' % (self.spec['name'], self.spec['path'], '; '.join(note)))
-            text.append('def py_%s %s%s : Py.M (%s) := do' % (lean_name(self.spec), '(fuel : Nat) ' if self.spec.get('fuel') else '', sig,
-                                                            ty(self.spec['ret'])))
+            text.append('def py_%s %s%s : %s (%s) := do' % (lean_name(self.spec), '(fuel : Nat) ' if self.spec.get('fuel') else '', sig,
+                                                            self.M, ty(self.spec['ret'])))
         else:
             text.append('/-- `%s` (%s), statement by statement -/' % (self.name, self.spec['path']))
-            text.append('def py_%s %s : Py.M (%s) := do' % (self.spec.get('lean', self.name), sig, ty(self.spec['ret'])))
+            text.append('def py_%s %s : %s (%s) := do' % (self.spec.get('lean', self.name), sig, self.M, ty(self.spec['ret'])))
         text.append(self.ind0 + 'let mut v : %s.Vars := { %s }' % (self.name, init))
         text += out
         return '\n'.join(text) + '\n'
@@ -1610,7 +1655,7 @@ def find_function(tree, name):
     return c[0]
 
 
-def translate(repo, funcs, out):
+def translate(repo, funcs, out, want_done=False):
     """translate the functions of the typing stubs `funcs` in order, appending the Lean text to `out`"""
     summary = {}
     trees = {}
@@ -1647,6 +1692,8 @@ def translate(repo, funcs, out):
         done[key] = spec
         summary[key] = {'statements': sum(1 for _ in ast.walk(fn) if isinstance(_, ast.stmt)) - 1,
                         'loops': tx.nloops, 'source_lines': (fn.end_lineno - fn.lineno + 1)}
+    if want_done:
+        return summary, done
     return summary
 
 
